@@ -143,6 +143,46 @@ func runC08(c *Ctx) {
 		"session/handler state pointers are non-nil; host-table and logging callees are opaque here (their bodies are covered by C05/C09/C20)",
 		"len < 2^62; go/ssa is faithful to the compiler")
 	r.Rule("bounds", "every index/slice/array-conversion/binary.BigEndian access in handler and decoder call trees is within bounds", 400)
+	// netip.Addr.As4 panics on anything but an IPv4 (or IPv4-mapped) address. Wherever the library converts an address that
+	// came out of a packet or a file, the call is under an Is4 / Is4In6 test of that address. EncodeIP4 converts addresses
+	// its caller chose: that is its precondition, listed here.
+	r.Rule("as4", "As4 is called only on addresses tested with Is4 (decoders, handlers)", 1)
+	{
+		allowed := map[string]string{"packet.EncodeIP4": "the caller supplies the addresses of the header it asks for"}
+		kga4 := core.NewKeyGen()
+		for _, fn := range c.P.LibFunctions() {
+			for _, site := range callsIn(fn, nameIs("As4")) {
+				if core.CalleeName(site) != "(net/netip.Addr).As4" || len(site.Common().Args) != 1 {
+					continue
+				}
+				ins := site.(ssa.Instruction)
+				arg := norm(site.Common().Args[0])
+				root := arg
+				if k := strings.Index(root, "(net/netip.Prefix).Addr("); k >= 0 {
+					root = strings.TrimSuffix(root[k+len("(net/netip.Prefix).Addr("):], ")")
+				}
+				ok := false
+				basis := "dominated by Is4() of the converted address"
+				if why, isAllowed := allowed[core.FuncName(fn)]; isAllowed {
+					ok, basis = true, "listed: "+why
+				}
+				for _, g := range guardsOf(ins) {
+					if g.Pol && (strings.HasPrefix(g.Text, "(net/netip.Addr).Is4(") || strings.HasPrefix(g.Text, "(net/netip.Addr).Is4In6(")) && (strings.Contains(g.Text, arg) || strings.Contains(g.Text, root)) {
+						ok = true
+					}
+				}
+				if cl, isCall := site.Common().Args[0].(*ssa.Call); isCall && cl.Common().StaticCallee() != nil && core.FuncName(cl.Common().StaticCallee()) == "net/netip.AddrFrom4" {
+					ok = true
+				}
+				st := core.Proved
+				if !ok {
+					st = core.Violated
+				}
+				r.Add(core.Obligation{Rule: "as4", Key: strings.TrimSuffix(kga4.Key("as4 "+core.FuncName(fn)), "#0"), Func: core.FuncName(fn), Pos: c.P.Pos(core.PosOf(ins)), Status: st,
+					Basis: basis, Detail: "As4() of " + arg + " is not under an Is4 test: an address of the other family (an IPv6 literal in a reverse-lookup owner name, a prefix from a damaged file) makes the call panic"})
+			}
+		}
+	}
 	r.Rule("panic", "no explicit panic reachable from a handler or decoder root", 0)
 	r.Rule("div", "no division by a possibly-zero value", 0)
 	r.Rule("typeassert", "no unchecked type assertion on a value of unestablished dynamic type", 0)
